@@ -120,11 +120,31 @@ def dedupVals : List Val → List Val
   | [] => []
   | x :: xs => x :: (dedupVals xs).filter (· != x)
 
-def sumVals : List Val → Except Err Val
+/-- checked integer sum -/
+def sumInts : List Val → Except Err Val
   | [] => .ok (.int 0)
   | v :: vs => do
-      let rest ← sumVals vs
+      let rest ← sumInts vs
       evalArith .add v rest
+
+/-- float sum: every addend (an integer only if it converts to `f64` exactly) and every
+partial sum must be exact, otherwise the result depends on the order and grouping of the
+additions and the model does not define it -/
+def sumFlts : List Val → Except Err Val
+  | [] => .ok (.flt 0 0)
+  | v :: vs => do
+      let rest ← sumFlts vs
+      let v' ← (match v with
+        | .atom (.int i) => do
+            let (p, k) ← intAsFlt i
+            pure (Val.flt p k)
+        | x => pure x)
+      evalArith .add v' rest
+
+/-- `sum`: an Integer while every addend is an integer, a Float as soon as one is a float -/
+def sumVals (vs : List Val) : Except Err Val :=
+  if vs.all (fun v => match v with | .atom (.int _) => true | _ => false) then sumInts vs
+  else sumFlts vs
 
 /-- divide the dyadic `n/2^k` by the positive natural `d` if the quotient is dyadic -/
 def dyDivNat (n : Int) (k : Nat) (d : Nat) : Except Err Val :=
@@ -169,11 +189,9 @@ def evalAgg (g : Graph) (k : AggKind) (distinct : Bool) (arg : Expr) (rows : Lis
     else if !(vals.all (fun v => match v with | .atom a => a.num?.isSome | _ => false))
     then throw .type
     else do
-      let s ← sumVals vals
+      -- the engine accumulates an `f64`: every addend and partial sum must be exact
+      let s ← sumFlts vals
       match s with
-      | .atom (.int i) => do
-          let (p, kp) ← intAsFlt i
-          dyDivNat p kp vals.length
       | .atom (.flt n kk) => dyDivNat n kk vals.length
       | _ => throw .type
   | .min => pure (minMaxVals false vals)
@@ -230,8 +248,18 @@ def projectRows (g : Graph) (p : Proj) (rows : List Row) :
         let vals ← evalItemsPlain g p.items r
         pure (vals, if p.distinct then mkRow p.items vals else mkRow p.items vals ++ r)) rows
 
+/-- a sort key that is a `collect(…)` column: the order of the collected list is not
+defined, so neither is the order of the rows -/
+def Proj.orderUsesCollect (p : Proj) : Bool :=
+  p.orderBy.any fun ok => match ok.e with
+    | .var a => p.items.any fun it => match it with
+        | .agg .collect _ _ al => al == a
+        | _ => false
+    | _ => false
+
 /-- rows before ORDER BY / SKIP / LIMIT, each with its sort key -/
 def rowsIn (g : Graph) (p : Proj) (rows : List Row) : Except Err (List PRow) := do
+  if p.orderUsesCollect then throw .unspecified
   let prs ← projectRows g p rows
   let prs ← (if p.distinct then
       (if twinFree (prs.flatMap (·.1)) then pure (dedupPairs prs) else throw .unspecified)
@@ -310,29 +338,38 @@ def Proj.collectCols (p : Proj) : List Bool :=
     | .agg .collect _ _ _ => true
     | _ => false
 
-/-- the reference result (rows in the model's own order; `collect` columns canonical) -/
+/-- the reference result (rows in the model's own order) -/
 def evalQuery (g : Graph) (de : Bool) (q : Query) : Except Err Table := do
   let rows ← evalClauses g de q.clauses [[]]
   let out ← projOut g q.ret rows
-  pure ⟨q.ret.items.map Item.alias, out.map (canonRow q.ret.collectCols)⟩
+  pure ⟨q.ret.items.map Item.alias, out⟩
+
+/-- equality of result rows: a `collect(…)` column (flag `true`) is a **bag** — openCypher
+does not order it — every other column must be identical (type included: `1` ≠ `1.0`) -/
+def rowEqv : List Bool → List Val → List Val → Bool
+  | true :: fs, .list a :: as, .list b :: bs => a.isPerm b && rowEqv fs as bs
+  | _ :: fs, a :: as, b :: bs => a == b && rowEqv fs as bs
+  | [], a :: as, b :: bs => a == b && rowEqv [] as bs
+  | _, [], [] => true
+  | _, _, _ => false
 
 /-! ## the specification on an observed result -/
 
 /-- `out` is an admissible result given the determined pre-ORDER-BY rows `P`, for a key
 order `le` with tie relation `eqv` -/
-def admissibleBy (le eqv : List Val → List Val → Bool) (skip limit : Option Nat) (P : List PRow)
-    (out : List (List Val)) : Bool :=
+def admissibleBy (le eqv : List Val → List Val → Bool) (cc : List Bool) (skip limit : Option Nat)
+    (P : List PRow) (out : List (List Val)) : Bool :=
   let want := window skip limit ((sortBy (fun a b => le a.key b.key) P).map (·.key))
   let pairs := want.zip out
   out.length == want.length &&
   pairs.all fun (c, r) =>
-    decide (pairs.countP (fun (c', r') => eqv c c' && r' == r)
-      ≤ P.countP (fun pr => eqv c pr.key && pr.vals == r))
+    decide (pairs.countP (fun (c', r') => eqv c c' && rowEqv cc r' r)
+      ≤ P.countP (fun pr => eqv c pr.key && rowEqv cc pr.vals r))
 
 /-- the specification: keys ordered by Cypher's orderability -/
-def admissible (descs : List Bool) (skip limit : Option Nat) (P : List PRow)
+def admissible (descs : List Bool) (cc : List Bool) (skip limit : Option Nat) (P : List PRow)
     (out : List (List Val)) : Bool :=
-  admissibleBy (keysLe descs) (keysEqv descs) skip limit P out
+  admissibleBy (keysLe descs) (keysEqv descs) cc skip limit P out
 
 /-! ### the engine's sort order (known finding `orderby-int-float-secondary-key`)
 
@@ -351,10 +388,10 @@ def cmpKeysLegacy : List Bool → List Val → List Val → Ordering
     | o => o
   | _, _, _ => .eq
 
-def admissibleLegacyTie (descs : List Bool) (skip limit : Option Nat) (P : List PRow)
-    (out : List (List Val)) : Bool :=
+def admissibleLegacyTie (descs : List Bool) (cc : List Bool) (skip limit : Option Nat)
+    (P : List PRow) (out : List (List Val)) : Bool :=
   admissibleBy (fun a b => cmpKeysLegacy descs a b != .gt) (fun a b => cmpKeysLegacy descs a b == .eq)
-    skip limit P out
+    cc skip limit P out
 
 inductive Verdict where
   | ok
@@ -372,12 +409,10 @@ def specQueryWith (legacyTie : Bool) (g : Graph) (de : Bool) (q : Query) (out : 
     | .error e => .skip e
     | .ok P =>
       let cc := q.ret.collectCols
-      let P := P.map fun pr => { pr with vals := canonRow cc pr.vals }
-      let outRows := out.rows.map (canonRow cc)
       if out.cols != q.ret.items.map Item.alias then .viol "columns"
-      else if (if legacyTie then admissibleLegacyTie q.ret.descs q.ret.skip q.ret.limit P outRows
-               else admissible q.ret.descs q.ret.skip q.ret.limit P outRows) then .ok
-      else if outRows.length != (window q.ret.skip q.ret.limit P).length then .viol "row-count"
+      else if (if legacyTie then admissibleLegacyTie q.ret.descs cc q.ret.skip q.ret.limit P out.rows
+               else admissible q.ret.descs cc q.ret.skip q.ret.limit P out.rows) then .ok
+      else if out.rows.length != (window q.ret.skip q.ret.limit P).length then .viol "row-count"
       else .viol "rows"
 
 /-- S evaluated on the engine's table -/
